@@ -47,8 +47,10 @@ CHECKS = {
             'statistic, with n, sum, rms, mean read-outs, the n=1 error branch and invariance under permutation of arrival order. '
             'The model definitions are the ones the driver executes against the real classes on generated sequences each run.',
             'The floating-point clause: for the MEAN it is proved under the standard model of rounding (C05Float.mean_float_error, 6*n*u*max|x| '
-            'for 8*n*u <= 1); for variance/covariance it is checked as a test (float_probe against the exact rational batch statistic). The '
-            'update expression of Mean is additionally translated from the current source and proved equal to the model by ring on every run.',
+            'for 8*n*u <= 1) and for the VARIANCE (Welford) too (C05FloatVar.var_float_defect / _centered / var_float_value_error: worst-case '
+            'bounds on n*var - S and on the rounded read-out, for 64*n*u <= 1) and the covariance entry (C05FloatCov.cov_float_defect and its Cauchy-Schwarz, centred and read-out forms); '
+            'merges and running variants are checked as a test (float_probe against the exact rational batch statistic). The '
+            'update expressions and read-outs of Mean, Variance (Welford) and Covariance are additionally translated from the current source and proved equal to the model by ring on every run.',
             'DESIGN.md §6 C05'),
     'C06': ('Lean 4 proof (pooled-merge algebra, induction over merge trees) over the executable model; model-vs-code correspondence on random partitions and merge orders',
             'Theorems: merge (run xs) (run ys) = run (xs ++ ys) as states for Counter/Min/Max/Mean/Variance/Cov2 over every field of '
@@ -62,8 +64,10 @@ CHECKS = {
             'Theorems for every grid with >= 2 markers and every sequence once n >= m: heights sorted, lowest/highest marker = exact '
             'min/max, ranks integers strictly increasing from 0 to n-1 (inv_step, inv_run); before that the markers are the observations '
             'in arrival order; q_actual in [0,1] and monotone; np.interp model monotone and within range, hence cdf/quantile read-outs.',
-            'The theorems are over exact ordered fields; the binary64 clause rests on three stated arithmetic facts (DESIGN §6 C07) and is '
-            'exercised by the bit-level lock-step run, not proved.',
+            'Besides the exact-field theorems the structural invariants (sorted heights, exact min/max, range, integer strictly increasing ranks) are '
+            'proved for the same generic model at rounded arithmetic (C07Float.*: any monotone, idempotent, sign-symmetric rounding with relative error u, '
+            '(1+u)^2 <= 2, integers up to N exact, n <= N); that binary64 is such an arithmetic in its normal range is assumed, overflow/subnormals/NaN '
+            'are outside the model; the read-outs are proved over exact fields only; the bit-level lock-step run exercises the rest.',
             'DESIGN.md §6 C07'),
     'C08': ('Lean 4 proof: refinement of the vectorised-code model to a direct transcription of Box 1 of Jain & Chlamtac (relation Abs, '
             'step and run level); lock-step correspondence plus an independent Python transcription of the paper',
@@ -107,7 +111,8 @@ CHECKS = {
             'Theorems: in every reachable state processed = p0 + results taken and yielded = y0 + values handed over (so yielded <= processed '
             'in parallel mode), for every schedule and consumer; a stream started with counters (p0,y0) behaves exactly like one started '
             'at (0,0) shifted by (p0,y0); for several streams of ONE stage alive at once (Model/Stage.lean) every stream behaves as if alone '
-            'and the shared counters are p0 + sum of results taken, y0 + sum of values handed over (C13Stage.*).',
+            'and the shared counters are p0 + sum of results taken, y0 + sum of values handed over (C13Stage.*); when the function or the '
+            'source fails the counters stop at exactly the failure-free prefix, identically in-process and in parallel, and never move again (C13Fail.*).',
             'The string formatting is modelled (binary64 division and multiplication, round-half-even on the exact value) and compared, not proved.',
             'DESIGN.md §6 C13'),
     'C14': ('Lean 4 proof: digitize characterisation, fold invariants of BinSorter for an arbitrary per-bin accumulator, DynamicBinSorter on '
